@@ -267,3 +267,236 @@ def eval_tree_lookup(P, method):
                 else:
                     bad_miss = bad_miss or msg
     return bad_hit, bad_miss, unsup, ncase
+
+
+def eval_teardown(P, T, fname, args=None, reset=()):
+    """A clear / delete routine of container T evaluated on the small instances: every element (for maps: every key and every value)
+    is destructed exactly once, before the storage that holds it is released; the storage is released exactly once (Array, Table: the
+    backing store; List, Tree: one block per element, the block the type's own allocator laid out); `reset` names fields that must be
+    zero afterwards.  Returns (mismatch, unsupported, cases)."""
+    fn = P.fn(fname)
+    bad, unsup, ncase = None, None, 0
+    for sc in scenarios(T):
+        M = build(P, T, sc)
+        owned = list(M.elems) + list(M.vals)
+        events = []
+
+        def call(nm, e, it, M=M, events=events):
+            if nm == 'destruct':
+                v = it.ev(e[2][0])
+                events.append(('destruct', v))
+                return v
+            if nm == 'free':
+                events.append(('free', it.ev(e[2][0])))
+                return 0
+            if nm == 'len' and it.ev(e[2][0]) == SELF:
+                return M.n
+            raise cint.NoEval('call %s' % nm)
+        # storage blocks
+        if T in ('Array', 'Table'):
+            blocks = {M.atoms[('elem', 'self', 0, 'data')]: list(owned)}        # the backing store exists even when no element is held
+            store = M.atoms[('elem', 'self', 0, 'data')]
+        elif T == 'List':
+            blocks = {}
+            for el in M.elems:
+                seen = []
+
+                def probe_call(nm, e, it, seen=seen):
+                    if nm == 'free':
+                        seen.append(it.ev(e[2][0]))
+                        return 0
+                    raise cint.NoEval('call %s' % nm)
+                r = cint.CInt(P, P.fn('List_Free'), atoms=M.atoms, call=probe_call, recurse=True).run([SELF, el])
+                if len(seen) != 1:
+                    raise Unsupported('List_Free does not release one block')
+                blocks[seen[0]] = [el]
+        else:
+            blocks = {nd: [k, v] for nd, k, v in zip(M.nodes, M.elems, M.vals)}
+        a = args(M) if args else [SELF]
+        it = cint.CInt(P, fn, atoms=M.atoms, call=call, recurse=True, mem=M.mem, max_steps=6000, max_depth=10)
+        it.atoms = M.atoms
+        try:
+            r = it.run(a)
+        except Mismatch as x:
+            bad = bad or '%s: %s' % (M.label, x)
+            continue
+        ncase += 1
+        if r[0] == 'stuck':
+            unsup = unsup or '%s: %s at %s' % (M.label, r[1], P.cfg(fn).describe(r[2]))
+            continue
+        if r[0] != 'ret':
+            bad = bad or '%s: does not return' % M.label
+            continue
+
+        def name(v):
+            if v in M.elems:
+                return ('key %d' if M.vals else 'element %d') % (M.elems.index(v) + 1)
+            if v in M.vals:
+                return 'value %d' % (M.vals.index(v) + 1)
+            return 'something that is no element (%s)' % (v,)
+        des = [v for k_, v in events if k_ == 'destruct']
+        frees = [v for k_, v in events if k_ == 'free']
+        msg = None
+        if sorted(map(repr, des)) != sorted(map(repr, owned)):
+            missing = [name(v) for v in owned if v not in des]
+            twice = sorted({name(v) for v in des if des.count(v) > 1})
+            extra = [name(v) for v in des if v not in owned]
+            msg = 'destructs %s' % ([name(v) for v in des],) + (': %s never destructed' % missing if missing else '') + (': %s destructed twice' % twice if twice else '') + \
+                (': %s' % extra if extra else '')
+        else:
+            want_frees = sorted(k_ for k_ in blocks)
+            real = [f for f in frees if f != 0]
+            if sorted(real) != want_frees:
+                msg = 'releases %d block(s), the container holds %d%s' % (len(real), len(want_frees), ' (a block released twice)' if len(set(real)) != len(real) else '')
+            else:
+                for blk, held in blocks.items():
+                    fi = events.index(('free', blk))
+                    late = [name(v) for v in held if events.index(('destruct', v)) > fi]
+                    if late:
+                        msg = 'the storage of %s is released before it is destructed' % late
+        if not msg:
+            for f_ in reset:
+                if M.atoms.get(('elem', 'self', 0, f_)) != 0:
+                    msg = 'the field `%s` is not reset' % f_
+        if msg:
+            bad = bad or '%s: %s' % (M.label, msg)
+    return bad, unsup, ncase
+
+
+def eval_node_alloc(P, T):
+    """Tree_Alloc / List_Alloc evaluated over zeroed block memory: the block covers the link words, the headers and size(type) bytes
+    of every embedded object *where the type's accessors place them*; each embedded object gets its header (type of the container's
+    key / value / element, allocation class AllocData) directly in front of it; the links of the fresh node are NULL.
+    Returns (mismatch or None, unsupported or None)."""
+    fname = '%s_Alloc' % T
+    fn = P.fn(fname)
+    HDR = 8 * len(P.records['Header']['fields']) if 'Header' in P.records else 24
+    for ksize, vsize in ((8, 16), (24, 8), (0, 8)):
+        atoms = {('global', 'NULL'): 0, ('global', 'Terminal'): TERM}
+        for f, v in (('type', 8500), ('ktype', 8500), ('vtype', 8501), ('tsize', ksize), ('ksize', ksize), ('vsize', vsize), ('nitems', 3), ('root', 0), ('head', 0), ('tail', 0)):
+            atoms[('elem', 'self', 0, f)] = v
+        BASE = 100000
+        st = {'size': None, 'inits': [], 'mem': {}}
+
+        def inside(a, w):
+            return st['size'] is not None and BASE <= a and a + (w or 8) <= BASE + st['size']
+
+        def mem(a, it):
+            if not inside(a, it.mem_width):
+                raise Mismatch('reads %s bytes at offset %d of a block of %s' % (it.mem_width, a - BASE, st['size']))
+            return st['mem'].get(a, 0)
+
+        def memw(a, v, w, it):
+            if not inside(a, w):
+                raise Mismatch('writes %s bytes at offset %d of a block of %s' % (w, a - BASE, st['size']))
+            st['mem'][a] = v
+
+        def call(nm, e, it):
+            if nm in ('calloc', 'malloc'):
+                args = [it.ev(x) for x in e[2]]
+                st['size'] = args[0] * args[1] if nm == 'calloc' else args[0]
+                return BASE
+            if nm == 'header_init':
+                h, t, al = it.ev(e[2][0]), it.ev(e[2][1]), it.ev(e[2][2])
+                if not inside(h, HDR):
+                    raise Mismatch('a header is initialised at offset %d of a block of %s bytes' % (h - BASE, st['size']))
+                st['inits'].append((h, t, al))
+                return h + HDR
+            raise cint.NoEval('call %s' % nm)
+        it = cint.CInt(P, fn, atoms=atoms, call=call, recurse=True, mem=mem, memw=memw, max_depth=6)
+        label = '%s element of %d%s bytes' % (T, ksize, ('+%d' % vsize) if T == 'Tree' else '')
+        try:
+            r = it.run([SELF])
+            if r[0] != 'ret' or not isinstance(r[1], int):
+                return None, '%s: %s' % (label, r[1])
+            obj = r[1]
+            DATA = P.enums.get('AllocData', 2)
+            if T == 'Tree':
+                node = obj
+                key = sub(P, 'Tree_Key', [SELF, node], atoms)
+                val = sub(P, 'Tree_Val', [SELF, node], atoms)
+                links = [sub(P, 'Tree_Left', [SELF, node], atoms), sub(P, 'Tree_Right', [SELF, node], atoms), probe_read(P, 'Tree_Get_Parent', [SELF, node], atoms)]
+                objs = [(key, ksize, 8500, 'key'), (val, vsize, 8501, 'value')]
+            else:
+                key = obj
+                links = [sub(P, 'List_Next', [SELF, obj], atoms), sub(P, 'List_Prev', [SELF, obj], atoms)]
+                objs = [(obj, ksize, 8500, 'element')]
+            spans = [(a, a + 8, 'link word') for a in links] + [x for (o, sz, t, nm) in objs for x in ((o - HDR, o, 'header of the ' + nm), (o, o + sz, nm))]
+            for lo, hi, nm in spans:
+                if not (BASE <= lo and hi <= BASE + st['size']):
+                    return '%s: the %s occupies offsets %d..%d, the block has %d bytes' % (label, nm, lo - BASE, hi - BASE, st['size']), None
+            srt = sorted(spans)
+            for (lo1, hi1, n1), (lo2, hi2, n2) in zip(srt, srt[1:]):
+                if hi1 > lo2:
+                    return '%s: the %s (offsets %d..%d) overlaps the %s (%d..%d)' % (label, n1, lo1 - BASE, hi1 - BASE, n2, lo2 - BASE, hi2 - BASE), None
+            want = sorted((o - HDR, t, DATA) for (o, sz, t, nm) in objs)
+            if sorted(st['inits']) != want:
+                return '%s: headers initialised at %s, the embedded objects need %s (offset, type, allocation class)' % (
+                    label, [(h - BASE, t, al) for (h, t, al) in sorted(st['inits'])], [(h - BASE, t, al) for (h, t, al) in want]), None
+            for a in links[:2]:
+                if st['mem'].get(a, 0) != 0:
+                    return '%s: a link of the fresh node is not NULL' % label, None
+            if T == 'Tree' and (st['mem'].get(links[2], 0) & ~1) != 0:
+                return '%s: the parent of the fresh node is not NULL' % label, None
+        except Mismatch as x:
+            return '%s: %s' % (label, x), None
+    return None, None
+
+
+def eval_visits(P, T, fname, mode):
+    """A function that must visit every element of T (for maps: every key and every value) exactly once, evaluated on the small
+    instances.  mode 'mark': (self, gc, f) calls f(gc, element); mode 'hash': (self) combines hash(element) of every element with
+    xor.  Returns (mismatch, unsupported, cases)."""
+    fn = P.fn(fname)
+    bad, unsup, ncase = None, None, 0
+    FN, GC = 4242, 4300
+    for sc in scenarios(T):
+        M = build(P, T, sc)
+        owned = list(M.elems) + list(M.vals)
+        seen = []
+
+        def call(nm, e, it, M=M, seen=seen):
+            if nm is None and mode == 'mark':
+                if it.ev(e[1]) != FN:
+                    raise Mismatch('calls something that is not the marking callback')
+                a = [it.ev(x) for x in e[2]]
+                if a[0] != GC:
+                    raise Mismatch('the callback is not given the collector it was handed')
+                seen.append(a[1])
+                return 0
+            if nm == 'hash' and mode == 'hash':
+                v = it.ev(e[2][0])
+                seen.append(v)
+                return (1 << (owned.index(v) + 3)) if v in owned else (1 << 40)
+            if nm == 'len' and it.ev(e[2][0]) == SELF:
+                return M.n
+            raise cint.NoEval('call %s' % nm)
+        it = cint.CInt(P, fn, atoms=M.atoms, call=call, recurse=True, mem=M.mem, max_steps=4000)
+        try:
+            r = it.run([SELF, GC, FN] if mode == 'mark' else [SELF])
+        except Mismatch as x:
+            bad = bad or '%s: %s' % (M.label, x)
+            continue
+        ncase += 1
+        if r[0] == 'stuck' and r[1] != 'step bound':
+            unsup = unsup or '%s: %s at %s' % (M.label, r[1], P.cfg(fn).describe(r[2]))
+            continue
+
+        def name(v):
+            if v in M.elems:
+                return ('key %d' if M.vals else 'element %d') % (M.elems.index(v) + 1)
+            if v in M.vals:
+                return 'value %d' % (M.vals.index(v) + 1)
+            return 'something that is no element (%s)' % (v,)
+        if r[0] != 'ret':
+            bad = bad or '%s: the walk does not end' % M.label
+        elif sorted(map(repr, seen)) != sorted(map(repr, owned)):
+            missing = [name(v) for v in owned if v not in seen]
+            bad = bad or '%s: visits %s%s' % (M.label, [name(v) for v in seen], (', never %s' % missing) if missing else '')
+        elif mode == 'hash':
+            want = 0
+            for k in range(len(owned)):
+                want ^= 1 << (k + 3)
+            if r[1] != want:
+                bad = bad or '%s: the result is not the xor of the element hashes' % M.label
+    return bad, unsup, ncase
